@@ -142,6 +142,7 @@ def rt_items(tname, fields, nocomp=None):
     lines.append('        assert(q%d == d.len());' % len(fields))
     return ("""    open spec fn wf_cdec(data: Seq<u8>, p: int, v: &Self, p2: int) -> bool { Self::wf_dec(data, p, v, p2) }
     open spec fn wf_canon(&self) -> bool { true }
+    open spec fn wf_in_rdata() -> bool { true }
     open spec fn wf_nocomp() -> bool { %s }
     proof fn lemma_rt(&self, pre: Seq<u8>) {
 %s
